@@ -605,6 +605,7 @@ def check_C09(tier):
 
     def scheds(v, sc, rng):
         out, extra = [], {}
+        joinind_C10(v, sc)   # the timing clause of C09 is part of the same inductive invariant
         for what in ("join", "unite"):
             s, info = tlc_schedules(v, sc, rng, what, n_of(tier, 600, 20000))
             out += s
@@ -625,18 +626,18 @@ JOININD_TWINS = [
     ("JoinRst", "ELSE n' = n + 1 /\\ oldest' = (IF n = 0 THEN now ELSE oldest) /\\ passAt' = passAt",
      "ELSE n' = n + 1 /\\ oldest' = (IF n = 0 THEN now ELSE oldest) /\\ passAt' = (IF now - passAt >= tmo THEN now ELSE passAt)",
      "passAt reset by an arriving element once the timeout has expired (seeded change C10-a)"),
-    ("JoinSkip", "  /\\ IF now - passAt >= tmo\n       THEN n' = 0 /\\ oldest' = -1 /\\ passAt' = now                 \\* pass() with or without",
-     "  /\\ IF now - passAt >= tmo /\\ n = 0\n       THEN n' = 0 /\\ oldest' = -1 /\\ passAt' = now                 \\* pass() with or without",
-     "a timeouted tick ignored while something is pending (seeded change C10-d)"),
-    ("JoinRearm", "  /\\ nextTick' = nextTick + per\n", "  /\\ nextTick' = (IF now - passAt >= tmo THEN nextTick + tmo ELSE nextTick + per)\n",
+    ("JoinSkip", "  /\\ IF Timeouted THEN\n", "  /\\ IF Timeouted /\\ n = 0 THEN\n", "a timeouted tick ignored while something is pending (seeded change C10-d)"),
+    ("JoinRearm", "  /\\ nextTick' = nextTick + per\n", "  /\\ nextTick' = (IF Timeouted THEN nextTick + tmo ELSE nextTick + per)\n",
      "ticker re-armed with the timeout after a timeouted tick (seeded change C10-b)"),
+    ("JoinEarly", "Timeouted == now - passAt >= tmo ", "Timeouted == now - passAt >= tmo - per ",
+     "elapsed time rounded up to the ticker period: a short slice leaves early (C09 timing clause, seeded change C09-e)"),
 ]
 
 
 def joinind_C10(v, sc):
     """C10 for EVERY Timeout, ticker period <= Timeout, JoinSize and arrival pattern (ready consumer, urgent regime): JoinInd.tla, Apalache"""
     apalache_inductive(v, sc, "JoinInd", JOININD_TWINS, "apalache_inductive_flush_bound", stage_specs)
-    v.notes.append("C10 residence bound (now - oldest < Timeout + ticker period) proved inductive for every Timeout, period, JoinSize and arrival "
+    v.notes.append("C10 residence bound (now - oldest < Timeout + ticker period) and the C09 timing clause (a short slice leaves no earlier than Timeout after the previous delivery) proved inductive for every Timeout, period, JoinSize and arrival "
                    "pattern on the counter abstraction JoinInd.tla (Apalache); twins: " + "; ".join(t[3] for t in JOININD_TWINS) + " - each rejected")
 
 
